@@ -12,6 +12,7 @@ CONSTANTS
   LogV = {1}
   RefV = {1}
   SuiV = {1, 2}
+  StageFolds = FALSE
   MaxOps = 3
   MaxDepth = 3
   MaxCommits = 1
